@@ -608,6 +608,170 @@ impl MessageDecoder {
         },
 //@end
 }
+
+// ---------------------------------------------------------------- C18: options only filter or decorate
+pub open spec fn with_validation(c: DecoderContext, v: bool) -> DecoderContext { DecoderContext { validation: v, ..c } }
+// if decoding with validation succeeds, decoding without it succeeds with the same message
+// props: C18
+pub proof fn lemma_c18_validation_upto(b: Seq<u8>, sts: Seq<int>, k: int, c: DecoderContext)
+    requires dec_upto(b, sts, k, Some(with_validation(c, true))) is Some,
+    ensures dec_upto(b, sts, k, Some(with_validation(c, false))) == dec_upto(b, sts, k, Some(with_validation(c, true))),
+    decreases k,
+{
+    if k > 0 { lemma_c18_validation_upto(b, sts, k - 1, c); }
+}
+// props: C18
+pub proof fn lemma_c18_validation(b: Seq<u8>, c: DecoderContext)
+    requires decoded(b, Some(with_validation(c, true))) is Some,
+    ensures decoded(b, Some(with_validation(c, false))) == decoded(b, Some(with_validation(c, true))),
+{
+    let sts = walk(b.subrange(20, 20 + be16(b.subrange(2, 4))), 0)->Some_0;
+    lemma_c18_validation_upto(b, sts, sts.len() as int, c);
+}
+// a decoder built without a context behaves like one built with the default context
+// props: C18
+pub proof fn lemma_c18_default_ctx(b: Seq<u8>, sts: Seq<int>, k: int, key: Option<HMACKey>)
+    ensures dec_upto(b, sts, k, None) == dec_upto(b, sts, k, Some(DecoderContext { key: None, validation: false, unknown_data: false, not_ignore: false })),
+    decreases k,
+{
+    if k > 0 { lemma_c18_default_ctx(b, sts, k - 1, key); }
+}
+// with the ordering rule disabled every wire attribute is returned, in order; the default result is the subsequence
+// of the admitted ones
+pub open spec fn pick(all: Seq<StunAttribute>, ts: Seq<u16>, k: int) -> Seq<StunAttribute>
+    decreases k
+{
+    if k <= 0 { Seq::<StunAttribute>::empty() }
+    else if admitted(ts, k - 1) { pick(all, ts, k - 1).push(all[k - 1]) } else { pick(all, ts, k - 1) }
+}
+// props: C18 C09
+pub proof fn lemma_c18_not_ignore(b: Seq<u8>, sts: Seq<int>, k: int, c: DecoderContext)
+    requires 0 <= k <= sts.len(), !c.validation,
+        dec_upto(b, sts, k, Some(DecoderContext { not_ignore: true, ..c })) is Some,
+    ensures ({
+        let all = dec_upto(b, sts, k, Some(DecoderContext { not_ignore: true, ..c }))->Some_0;
+        let body = b.subrange(20, 20 + be16(b.subrange(2, 4)));
+        &&& all.len() == k
+        &&& (forall|i: int| 0 <= i < k ==> Some(#[trigger] all[i]) == attr_at(b, sts[i], c.unknown_data))
+        &&& dec_upto(b, sts, k, Some(DecoderContext { not_ignore: false, ..c })) == Some(pick(all, types_at(body, sts), k))
+    }),
+    decreases k,
+{
+    if k > 0 {
+        let cn = Some(DecoderContext { not_ignore: true, ..c });
+        let cd = Some(DecoderContext { not_ignore: false, ..c });
+        lemma_c18_not_ignore(b, sts, k - 1, c);
+        let body = b.subrange(20, 20 + be16(b.subrange(2, 4)));
+        let all0 = dec_upto(b, sts, k - 1, cn)->Some_0;
+        let all = dec_upto(b, sts, k, cn)->Some_0;
+        assert(all == all0.push(attr_at(b, sts[k - 1], c.unknown_data)->Some_0));
+        lemma_pick_push(all0, attr_at(b, sts[k - 1], c.unknown_data)->Some_0, types_at(body, sts), k - 1);
+    }
+}
+proof fn lemma_pick_push(all: Seq<StunAttribute>, x: StunAttribute, ts: Seq<u16>, k: int)
+    requires 0 <= k <= all.len(),
+    ensures pick(all.push(x), ts, k) == pick(all, ts, k),
+    decreases k,
+{
+    if k > 0 { lemma_pick_push(all, x, ts, k - 1); assert(all.push(x)[k - 1] == all[k - 1]); }
+}
+// keeping unknown-attribute data changes nothing but the payload of Unknown attributes
+pub open spec fn same_but_unknown_data(a: StunAttribute, a_ud: StunAttribute, t: u16, v: Seq<u8>) -> bool {
+    if registered(t) { a == a_ud } else { a == unknown_attr(t, None) && a_ud == unknown_attr(t, Some(v)) }
+}
+// props: C18
+pub proof fn lemma_c18_unknown_data(b: Seq<u8>, st: int)
+    ensures ({
+        let body = b.subrange(20, 20 + be16(b.subrange(2, 4)));
+        let t = tlv_type(body, st) as u16;
+        let v = body.subrange(st + 4, st + 4 + tlv_len(body, st));
+        &&& (attr_at(b, st, false) is Some <==> attr_at(b, st, true) is Some)
+        &&& (attr_at(b, st, false) is Some ==> same_but_unknown_data(attr_at(b, st, false)->Some_0, attr_at(b, st, true)->Some_0, t, v))
+    }),
+{
+}
+
+// ---------------------------------------------------------------- C09: nothing after FINGERPRINT (or inadmissible after integrity) matters
+// props: C09
+pub proof fn lemma_c09_after_fingerprint(ts: Seq<u16>, i: int, j: int)
+    requires 0 <= i < j < ts.len(), kind_of(ts[i]) == 3,
+    ensures !admitted(ts, j),
+{
+    assert(seen(ts, j, 3));
+}
+// attributes that are not admitted and that their handlers accept (well-formed) do not change the decoded message,
+// with or without validation
+// props: C09
+pub proof fn lemma_c09_inadmissible_suffix(b: Seq<u8>, sts: Seq<int>, k0: int, k: int, c: Option<DecoderContext>)
+    requires 0 <= k0 <= k <= sts.len(), !opt_not_ignore(c),
+        forall|i: int| k0 <= i < k ==> !admitted(types_at(b.subrange(20, 20 + be16(b.subrange(2, 4))), sts), i)
+            && attr_at(b, #[trigger] sts[i], opt_unknown_data(c)) is Some,
+    ensures dec_upto(b, sts, k, c) == dec_upto(b, sts, k0, c),
+    decreases k - k0,
+{
+    if k0 < k {
+        lemma_c09_inadmissible_suffix(b, sts, k0, k - 1, c);
+        assert(attr_at(b, sts[k - 1], opt_unknown_data(c)) is Some);
+    }
+}
+
+// ---------------------------------------------------------------- C03: the result depends only on the first 20 + length bytes
+// props: C03
+pub proof fn lemma_c03_prefix_only(b1: Seq<u8>, b2: Seq<u8>, c: Option<DecoderContext>)
+    requires b1.len() >= 20, b2.len() >= 20,
+        b1.len() >= 20 + be16(b1.subrange(2, 4)), b2.len() >= 20 + be16(b1.subrange(2, 4)),
+        b1.subrange(0, 20 + be16(b1.subrange(2, 4))) == b2.subrange(0, 20 + be16(b1.subrange(2, 4))),
+        !opt_validation(c),
+    ensures decoded(b1, c) == decoded(b2, c),
+{
+    let n = 20 + be16(b1.subrange(2, 4));
+    let p1 = b1.subrange(0, n);
+    let p2 = b2.subrange(0, n);
+    assert forall|i: int| 0 <= i < n implies b1[i] == b2[i] by { assert(p1[i] == p2[i]); }
+    assert(b1.subrange(2, 4) =~= b2.subrange(2, 4));
+    assert(header_ok(b1) == header_ok(b2));
+    let body1 = b1.subrange(20, n);
+    let body2 = b2.subrange(20, n);
+    assert(body1 =~= body2);
+    if header_ok(b1) && walk(body1, 0) is Some {
+        let sts = walk(body1, 0)->Some_0;
+        lemma_walk_bounds(body1, 0);
+        lemma_c03_upto(b1, b2, sts, sts.len() as int, c);
+    }
+}
+proof fn lemma_walk_bounds(body: Seq<u8>, pos: int)
+    requires walk(body, pos) is Some,
+    ensures forall|i: int| 0 <= i < walk(body, pos)->Some_0.len() ==> tlv_ok(body, #[trigger] walk(body, pos)->Some_0[i]),
+    decreases body.len() - pos,
+{
+    if pos < body.len() {
+        lemma_walk_bounds(body, tlv_next(body, pos));
+        let r = walk(body, tlv_next(body, pos))->Some_0;
+        let w = walk(body, pos)->Some_0;
+        assert(w == seq![pos] + r);
+        assert forall|i: int| 0 <= i < w.len() implies tlv_ok(body, #[trigger] w[i]) by {
+            if i > 0 { assert(w[i] == r[i - 1]); }
+        }
+    }
+}
+proof fn lemma_c03_upto(b1: Seq<u8>, b2: Seq<u8>, sts: Seq<int>, k: int, c: Option<DecoderContext>)
+    requires 0 <= k <= sts.len(), !opt_validation(c),
+        b1.len() >= 20 + be16(b1.subrange(2, 4)), b2.len() >= 20 + be16(b1.subrange(2, 4)),
+        forall|i: int| 0 <= i < 20 + be16(b1.subrange(2, 4)) ==> b1[i] == b2[i],
+        b1.subrange(2, 4) == b2.subrange(2, 4),
+        forall|i: int| 0 <= i < sts.len() ==> tlv_ok(b1.subrange(20, 20 + be16(b1.subrange(2, 4))), #[trigger] sts[i]),
+    ensures dec_upto(b1, sts, k, c) == dec_upto(b2, sts, k, c),
+    decreases k,
+{
+    if k > 0 {
+        lemma_c03_upto(b1, b2, sts, k - 1, c);
+        let n = 20 + be16(b1.subrange(2, 4));
+        assert(b1.subrange(20, n) =~= b2.subrange(20, n));
+        let st = sts[k - 1];
+        assert(tlv_ok(b1.subrange(20, n), st));
+        assert(b1.subrange(0, 20 + st) =~= b2.subrange(0, 20 + st));
+    }
+}
 proof fn vx_sentinel() ensures false {}
 } // verus!
 fn main() {}
